@@ -474,6 +474,12 @@ func (g *gaugeHist) vote() {
 		i = e.R.N(g.nVals + 3)
 	}
 	ws, kind := g.genWeights()
+	g.voteAs(i, ws, kind)
+}
+
+// voteAs submits one gauge vote of account i with the given weights
+func (g *gaugeHist) voteAs(i int, ws []litypes.PoolWeight, kind string) {
+	e, c := g.e, g.c
 	var xs []string
 	for _, w := range ws {
 		xs = append(xs, fmt.Sprintf("%d:%s", w.PoolId, w.Weight))
@@ -633,6 +639,25 @@ func runGaugeHistory(e *Env, hI int) {
 	// initial delegations so that delegators exist from the start
 	for k := 0; k < 2+r.N(3); k++ {
 		g.stake()
+	}
+	// opening with an epoch whose gauges all count zero: the only votes that reach the first tally carry no countable power
+	// (a weight of 0, or a dust stake times a small weight truncating to 0), then blocks across the epoch boundary with emissions
+	if hI%3 == 1 {
+		e.Stat("opening.zero_count_epoch")
+		if r.N(2) == 0 {
+			g.voteAs(r.N(nVals), []litypes.PoolWeight{{PoolId: g.pools[0], Weight: "0"}}, "zero_weight")
+		} else {
+			d := nVals + r.N(3)
+			_, err, p := c.Exec(&stakingtypes.MsgDelegate{DelegatorAddress: c.Accs[d].Addr.String(), ValidatorAddress: sdk.ValAddress(c.Accs[0].Addr).String(), Amount: sdk.NewInt64Coin("uvrise", 5)})
+			e.Stat("delegate." + class(err, p))
+			g.voteAs(d, []litypes.PoolWeight{{PoolId: g.pools[0], Weight: "0.1"}}, "dust_vote")
+		}
+		g.fund()
+		for s := 0; s < int(eb)+2; s++ {
+			if !g.block(6e9) {
+				return
+			}
+		}
 	}
 	steps := 25 + r.N(25)
 	if e.Tier == "thorough" {
